@@ -151,6 +151,11 @@ theorem C20_unlocked_write_races : Race racy 0 2 :=
    fun h => absurd (racy_hb _ _ h).1 (by decide),
    fun h => absurd (racy_hb _ _ h).1 (by decide)⟩
 
+/-- The lexical lock sets of the access table are the dynamic ones only if every user locks the SAME
+    mutex object: each mutex is a pointer field, or a value field of a struct that is only ever used
+    through a pointer (no value-receiver method copies it).  Checked against the regenerated skeleton. -/
+theorem C20_locks_are_shared : Skeleton.current.locksShared = true := by decide
+
 end Panrpc.Ls
 
 #print axioms Panrpc.Ls.lockset_race_free
@@ -158,3 +163,4 @@ end Panrpc.Ls
 #print axioms Panrpc.Ls.C20_race_free
 #print axioms Panrpc.Ls.C20_instance_pinned
 #print axioms Panrpc.Ls.C20_unlocked_write_races
+#print axioms Panrpc.Ls.C20_locks_are_shared
